@@ -35,6 +35,7 @@ var redirect = map[string]map[string]string{
 		"UDPAddr": "", "TCPAddr": "", "IP": "", "IPv4": "", "IPv4len": "", "IPv4bcast": "", "IPv4zero": "", "IPNet": "", "IPMask": "",
 		"UDPAddrFromAddrPort": "", "TCPAddrFromAddrPort": "", "ParseIP": "", "HardwareAddr": "", "Addr": "", "Error": "", "OpError": "",
 		"Interfaces": "", "FlagLoopback": "", "FlagUp": "", "JoinHostPort": "", "SplitHostPort": "", "ErrClosed": "",
+		"ParseMAC": "", "ParseCIDR": "", "IPv4Mask": "", "CIDRMask": "", "IPv6len": "", "IPv6zero": "", "IPv6unspecified": "", "IPv6loopback": "", "AddrError": "", "ParseError": "", "InvalidAddrError": "",
 	},
 	"time": {
 		"Now": "Now", "Sleep": "Sleep", "After": "TimeAfter", "NewTimer": "NewTimer", "AfterFunc": "AfterFunc", "Timer": "Timer", "Since": "Since", "Until": "Until",
@@ -42,7 +43,9 @@ var redirect = map[string]map[string]string{
 		"Local": "", "UTC": "", "Location": "", "Month": "", "Weekday": "", "ParseInLocation": "", "Parse": "", "Date": "", "Unix": "", "LoadLocation": "", "FixedZone": "",
 		"Monday": "", "Tuesday": "", "Wednesday": "", "Thursday": "", "Friday": "", "Saturday": "", "Sunday": "",
 		"January": "", "February": "", "March": "", "April": "", "May": "", "June": "", "July": "", "August": "", "September": "", "October": "", "November": "", "December": "",
-		"RFC3339": "", "DateTime": "", "DateOnly": "", "TimeOnly": "",
+		"RFC3339": "", "RFC3339Nano": "", "RFC1123": "", "RFC1123Z": "", "RFC822": "", "RFC822Z": "", "RFC850": "", "ANSIC": "", "UnixDate": "", "RubyDate": "", "Kitchen": "", "Layout": "",
+		"Stamp": "", "StampMilli": "", "StampMicro": "", "StampNano": "", "DateTime": "", "DateOnly": "", "TimeOnly": "",
+		"UnixMilli": "", "UnixMicro": "", "ParseDuration": "", "ParseError": "", "LoadLocationFromTZData": "",
 	},
 	"sync": {
 		"Mutex": "Mutex", "RWMutex": "RWMutex", "WaitGroup": "WaitGroup", "Map": "Map", "Once": "Once", "Pool": "Pool",
@@ -225,6 +228,7 @@ func (c *fileCtx) analyse() {
 	c.shared, c.writes, c.addrs, c.decls = map[*ast.Object]string{}, map[*ast.Ident]bool{}, map[*ast.Ident]bool{}, map[*ast.Ident]bool{}
 	c.pkgWrites = map[*ast.Ident]bool{}
 	c.skip = map[*ast.Ident]bool{}
+	atomicArg := map[*ast.UnaryExpr]bool{}
 	// package-level variables: writes are assignments whose left-hand side is rooted at the variable
 	ast.Inspect(c.file, func(n ast.Node) bool {
 		switch s := n.(type) {
@@ -252,8 +256,20 @@ func (c *fileCtx) analyse() {
 					c.pkgWrites[id] = true
 				}
 			}
+		case *ast.CallExpr:
+			// atomic.AddInt32(&x, 1): the address is consumed by the atomic operation itself, which
+			// orders the access; it is a (stamped) read of x, not an escaping write
+			if se, ok := s.Fun.(*ast.SelectorExpr); ok {
+				if id, ok := se.X.(*ast.Ident); ok && id.Obj == nil && c.pkgNames[id.Name] == "sync/atomic" {
+					for _, a := range s.Args {
+						if u, ok := a.(*ast.UnaryExpr); ok && u.Op == token.AND {
+							atomicArg[u] = true
+						}
+					}
+				}
+			}
 		case *ast.UnaryExpr:
-			if s.Op == token.AND {
+			if s.Op == token.AND && !atomicArg[s] {
 				if id := root(s.X); id != nil {
 					if _, ok := pkgVarOf(id); ok {
 						c.pkgWrites[id] = true // address taken: treated as a write
@@ -662,6 +678,70 @@ func (c *fileCtx) fixImports() {
 	}
 }
 
+// selfSynchronised drops package-level variables that are locked through their own methods
+// (v.Lock(), v.RLock() ...: a struct embedding its mutex, or a pointer to one). Without type
+// information the rewriter cannot separate the fields such a lock protects from the lock itself,
+// so these variables are left to the free-running -race pass rather than risk a false alarm.
+func selfSynchronised(files []*ast.File) []string {
+	dropped := []string{}
+	for _, f := range files {
+		ast.Inspect(f, func(n ast.Node) bool {
+			ce, ok := n.(*ast.CallExpr)
+			if !ok {
+				return true
+			}
+			se, ok := ce.Fun.(*ast.SelectorExpr)
+			if !ok {
+				return true
+			}
+			switch se.Sel.Name {
+			case "Lock", "Unlock", "RLock", "RUnlock", "TryLock", "TryRLock":
+			default:
+				return true
+			}
+			if id := root(se.X); id != nil {
+				if _, ok := pkgVars[id.Name]; ok {
+					delete(pkgVars, id.Name)
+					dropped = append(dropped, id.Name)
+				}
+			}
+			return true
+		})
+	}
+	return dropped
+}
+
+// packages lists the directories of the module (relative to its root) that hold non-test Go files.
+func packages(repo string) []string {
+	dirs := []string{}
+	filepath.WalkDir(repo, func(path string, d os.DirEntry, err error) error {
+		if err != nil || !d.IsDir() {
+			return nil
+		}
+		name := d.Name()
+		if path != repo && (strings.HasPrefix(name, ".") || strings.HasPrefix(name, "_") || name == "testdata" || name == "vendor" || name == "verifshim") {
+			return filepath.SkipDir
+		}
+		if path != repo {
+			if _, err := os.Stat(filepath.Join(path, "go.mod")); err == nil {
+				return filepath.SkipDir // nested module
+			}
+		}
+		if ents, err := os.ReadDir(path); err == nil {
+			for _, e := range ents {
+				if !e.IsDir() && strings.HasSuffix(e.Name(), ".go") && !strings.HasSuffix(e.Name(), "_test.go") {
+					rel, _ := filepath.Rel(repo, path)
+					dirs = append(dirs, rel)
+					break
+				}
+			}
+		}
+		return nil
+	})
+	sort.Strings(dirs)
+	return dirs
+}
+
 func main() {
 	repo := flag.String("repo", "/repo", "uhppote-core working tree")
 	shim := flag.String("shim", "/verif/mc/shim", "shim sources")
@@ -672,8 +752,33 @@ func main() {
 	}
 	os.MkdirAll(*out, 0o755)
 	overlay := map[string]string{}
+	report := []string{}
+	for _, rel := range packages(*repo) {
+		report = append(report, rewritePackage(*repo, rel, *out, overlay)...)
+	}
 
-	dir := filepath.Join(*repo, "uhppote")
+	// shim package, virtually inside the module
+	shimFiles, _ := filepath.Glob(filepath.Join(*shim, "vs", "*.go"))
+	for _, s := range shimFiles {
+		overlay[filepath.Join(*repo, "verifshim", "vs", filepath.Base(s))] = s
+	}
+	b, _ := json.MarshalIndent(map[string]any{"Replace": overlay}, "", " ")
+	if err := os.WriteFile(filepath.Join(*out, "overlay.json"), b, 0o644); err != nil {
+		fatal("%v", err)
+	}
+	for _, r := range report {
+		fmt.Println(r)
+	}
+}
+
+// rewritePackage instruments one package directory of the module.
+func rewritePackage(repo, rel, out string, overlay map[string]string) []string {
+	dir := filepath.Join(repo, rel)
+	outdir := filepath.Join(out, strings.NewReplacer("/", "_", ".", "_").Replace(rel))
+	if rel == "." {
+		outdir = filepath.Join(out, "_root")
+	}
+	os.MkdirAll(outdir, 0o755)
 	entries, err := os.ReadDir(dir)
 	if err != nil {
 		fatal("%v", err)
@@ -682,6 +787,8 @@ func main() {
 	ctx.GOOS, ctx.GOARCH = "linux", "amd64"
 	ctx.BuildTags = []string{"verif"}
 	report := []string{}
+	pkgVars = map[string]string{}
+	isFileScope = map[*ast.ValueSpec]bool{}
 	// first pass: package-level variables of the whole package
 	{
 		var all []*ast.File
@@ -698,6 +805,10 @@ func main() {
 			}
 		}
 		collectPkgVars(all)
+		if dropped := selfSynchronised(all); len(dropped) > 0 {
+			sort.Strings(dropped)
+			report = append(report, fmt.Sprintf("%s: self-synchronised package variables left to the -race pass: %v", rel, dropped))
+		}
 	}
 	for _, ent := range entries {
 		name := ent.Name()
@@ -750,7 +861,7 @@ func main() {
 		if !needShim {
 			continue // file untouched
 		}
-		dst := filepath.Join(*out, name)
+		dst := filepath.Join(outdir, name)
 		// keep build constraints (comments are not printed)
 		if src, err := os.ReadFile(path); err == nil {
 			for _, line := range strings.Split(string(src), "\n") {
@@ -766,19 +877,8 @@ func main() {
 			fatal("%v", err)
 		}
 		overlay[path] = dst
-		report = append(report, fmt.Sprintf("%s: shared=%v", name, ids))
+		report = append(report, fmt.Sprintf("%s/%s: shared=%v", rel, name, ids))
 	}
 
-	// shim package, virtually inside the module
-	shimFiles, _ := filepath.Glob(filepath.Join(*shim, "vs", "*.go"))
-	for _, s := range shimFiles {
-		overlay[filepath.Join(*repo, "verifshim", "vs", filepath.Base(s))] = s
-	}
-	b, _ := json.MarshalIndent(map[string]any{"Replace": overlay}, "", " ")
-	if err := os.WriteFile(filepath.Join(*out, "overlay.json"), b, 0o644); err != nil {
-		fatal("%v", err)
-	}
-	for _, r := range report {
-		fmt.Println(r)
-	}
+	return report
 }
